@@ -97,6 +97,9 @@ class NaiveBuf:
         return None
 
 
+HUGE = [2 ** 64 - 1, 2 ** 64 - 2, 2 ** 64 - 8, 2 ** 64 - 9, 2 ** 64 - 17, 2 ** 64 - 100, 2 ** 63, 2 ** 63 + 1, 2 ** 63 - 1, 2 ** 62]
+
+
 class BitsStream(runner.Stream):
     name = "bits"
     prefixes = ["bits"]
@@ -181,10 +184,14 @@ class BitsStream(runner.Stream):
                 elif c == 9:
                     dn = rng.range(0, 6)
                     off = rng.range(0, 8 * dn)
-                    ops.append(f"r:{dn}:{off}:{rng.range(0, max(8 * dn - off, 0) + 1)}")
+                    n = rng.range(0, max(8 * dn - off, 0) + 1)
+                    if rng.chance(1, 10):
+                        n = rng.choice(HUGE)       # a length no buffer holds: an error, never an overflow
+                    ops.append(f"r:{dn}:{off}:{n}")
                 elif c == 10:
                     dn = rng.range(0, 4)
-                    ops.append(rng.choice([f"rr:{dn}", f"rl:{dn}:{rng.range(0, 8 * dn)}", f"ro:{dn}:{rng.range(0, 8 * dn + 1)}"]))
+                    n = rng.choice(HUGE) if rng.chance(1, 10) else rng.range(0, 8 * dn)
+                    ops.append(rng.choice([f"rr:{dn}", f"rl:{dn}:{n}", f"ro:{dn}:{rng.range(0, 8 * dn + 1)}"]))
                 else:
                     ops.append(f"patch:{rng.range(0, 40)}:{rng.below(2)}")
             reqs.append("bits buf " + " ".join(ops))
